@@ -1004,8 +1004,11 @@ def corr_aes(ctx, pdfs, aes_state):
     prov = "fallback" if providers.crypt_provider[0] == "local_crypt_fallback" else "native"
     names = sorted(pdfs)
     if ctx.thorough:
-        seqs = [list(p) for p in itertools.permutations(["aesV4", "aesV5", "rc4", "plain"])]
-        for _ in range(60):
+        # every AES-256 extraction costs ~6 s on the pure-python provider: half of the 24 orders (every document
+        # occurs at every position), chosen by the seed, and 30 random histories keep the tier under 15 minutes
+        perms = [list(p) for p in itertools.permutations(["aesV4", "aesV5", "rc4", "plain"])]
+        seqs = perms[ctx.seed % 2::2]
+        for _ in range(30):
             seqs.append([ctx.rng.choice(names) for _ in range(ctx.rng.randrange(1, 6))])
         seqs += [[n] for n in names]
     else:   # one AES-256 extraction (~6 s) only
